@@ -25,7 +25,13 @@ type Frame struct {
 	addrTaken map[types.Object]bool // fields / globals whose address is taken somewhere
 	reflectHits []string
 	litNodes []*fnode
-	wLight     *wset // what the "light" callback methods (reachable from leaf library code) write
+	frameMemo map[string]frameRes
+	usedTrustedFrames map[string]bool
+	fnArgs    []fnArg
+	litByAST  map[*ast.FuncLit]*fnode
+	named     []*types.Named
+	implCache map[string][]*fnode
+	wLight    *wset // what the "light" callback methods (reachable from leaf library code) write
 	heavyNames map[string]bool
 	heavyList  []string
 }
@@ -76,6 +82,15 @@ type fnode struct {
 	external bool          // calls out of the module into code that may call back anything escaping
 	leafExt  bool          // calls out of the module into leaf library code (see isLeafExternal)
 	extIface map[string]bool // names of methods called through interfaces declared outside the module
+	extIfaceFns []*types.Func
+	ifaceCalls  []*types.Func // methods called through interfaces declared in the module
+	dynSigs     []string      // signatures of function values called
+	params      map[types.Object]int
+	paramCalls  []int    // indices of func-typed parameters that are called
+	paramCallSigs []string
+	sig         string        // (literals) own signature
+	dynTargets  []*fnode      // resolved targets of dynamic calls (framedyn.go)
+	frames      []*wset       // frames of interface methods called that carry a contract
 	writes   *wset
 }
 
@@ -88,7 +103,7 @@ func inModule(p *types.Package) bool {
 }
 
 func BuildFrame(prog *Program) *Frame {
-	f := &Frame{prog: prog, nodes: map[*types.Func]*fnode{}, inits: map[*types.Var]globalInit{}, memo: map[*fnode]*wset{}, ifaceMethodNames: map[string]bool{}, addrTaken: map[types.Object]bool{}}
+	f := &Frame{prog: prog, nodes: map[*types.Func]*fnode{}, inits: map[*types.Var]globalInit{}, memo: map[*fnode]*wset{}, ifaceMethodNames: map[string]bool{}, addrTaken: map[types.Object]bool{}, frameMemo: map[string]frameRes{}}
 	// interface method names across the whole loaded program
 	for _, pk := range prog.Pkgs {
 		if pk.Types == nil {
@@ -151,7 +166,7 @@ func BuildFrame(prog *Program) *Frame {
 					if obj == nil || d.Body == nil {
 						continue
 					}
-					n := &fnode{fn: obj, writes: newWset()}
+					n := &fnode{fn: obj, writes: newWset(), params: paramIndex(obj.Type().(*types.Signature))}
 					f.nodes[obj] = n
 					f.scanBody(pk, n, d.Body, valueTaken)
 				}
@@ -175,6 +190,7 @@ func BuildFrame(prog *Program) *Frame {
 	}
 	sort.Slice(f.esc, func(i, j int) bool { return f.esc[i].fn.FullName() < f.esc[j].fn.FullName() })
 	f.esc = append(f.esc, f.litNodes...)
+	f.resolveDynamic(valueTaken)
 	// closure from E
 	f.reachE = map[*fnode]bool{}
 	f.wE = newWset()
@@ -189,17 +205,28 @@ func BuildFrame(prog *Program) *Frame {
 		n := stack[len(stack)-1]
 		stack = stack[:len(stack)-1]
 		f.wE.add(n.writes)
+		npkg := ""
+		if n.fn != nil && n.fn.Pkg() != nil {
+			npkg = n.fn.Pkg().Path()
+		}
 		for _, c := range n.callees {
+			if ws, ok := f.frameOf(c, npkg); ok && !ws.all {
+				f.wE.add(ws)
+				continue
+			}
 			if cn := f.nodes[c]; cn != nil && !f.reachE[cn] {
 				f.reachE[cn] = true
 				stack = append(stack, cn)
 			}
 		}
-		for _, l := range n.lits {
+		for _, l := range append(append([]*fnode{}, n.lits...), n.dynTargets...) {
 			if !f.reachE[l] {
 				f.reachE[l] = true
 				stack = append(stack, l)
 			}
+		}
+		for _, ws := range n.frames {
+			f.wE.add(ws)
 		}
 	}
 	f.computeLight()
@@ -235,32 +262,59 @@ func (f *Frame) computeLight() {
 	}
 	sort.Slice(cands, func(i, j int) bool { return cands[i].fn.FullName() < cands[j].fn.FullName() })
 	f.heavyNames = map[string]bool{}
+	var frames []*wset
 	closure := func(n *fnode) (nodes []*fnode, heavy bool) {
+		frames = nil
 		seen := map[*fnode]bool{n: true}
 		stack := []*fnode{n}
 		for len(stack) > 0 {
 			c := stack[len(stack)-1]
 			stack = stack[:len(stack)-1]
 			nodes = append(nodes, c)
+			pkgOf := ""
+			if c.fn != nil && c.fn.Pkg() != nil {
+				pkgOf = c.fn.Pkg().Path()
+			}
 			if c.dynamic || c.external {
 				heavy = true
 			}
-			for name := range c.extIface {
-				if f.heavyNames[name] {
+			for _, ic := range c.ifaceCalls {
+				if ws, ok := f.frameOf(ic, pkgOf); !ok || ws.all {
+					heavy = true
+				}
+			}
+			for _, ef := range c.extIfaceFns {
+				if ws, ok := f.frameOf(ef, pkgOf); ok && !ws.all {
+					continue
+				}
+				if f.heavyNames[ef.Name()] {
 					heavy = true
 				}
 			}
 			for _, cal := range c.callees {
+				if ws, ok := f.frameOf(cal, pkgOf); ok {
+					if ws.all {
+						heavy = true
+					}
+					frames = append(frames, ws)
+					continue
+				}
 				if cn := f.nodes[cal]; cn != nil && !seen[cn] {
 					seen[cn] = true
 					stack = append(stack, cn)
 				}
 			}
-			for _, l := range c.lits {
+			for _, l := range append(append([]*fnode{}, c.lits...), c.dynTargets...) {
 				if !seen[l] {
 					seen[l] = true
 					stack = append(stack, l)
 				}
+			}
+			for _, ws := range c.frames {
+				if ws.all {
+					heavy = true
+				}
+				frames = append(frames, ws)
 			}
 		}
 		return
@@ -286,6 +340,9 @@ func (f *Frame) computeLight() {
 		for _, n := range nodes {
 			f.wLight.add(n.writes)
 		}
+		for _, ws := range frames {
+			f.wLight.add(ws)
+		}
 	}
 	for name := range f.heavyNames {
 		f.heavyList = append(f.heavyList, name)
@@ -298,6 +355,7 @@ func (f *Frame) scanBody(pk *packages.Package, n *fnode, body ast.Node, valueTak
 	info := pk.TypesInfo
 	callFuns := map[ast.Expr]bool{}
 	fl := freshLocals(info, body)
+	extLocals := extResultLocals(info, body)
 	var recordWrite func(e ast.Expr)
 	recordWrite = func(e ast.Expr) {
 		if n == nil {
@@ -372,17 +430,74 @@ func (f *Frame) scanBody(pk *packages.Package, n *fnode, body ast.Node, valueTak
 							n.extIface = map[string]bool{}
 						}
 						n.extIface[c.Name()] = true
+						n.extIfaceFns = append(n.extIfaceFns, c)
 						return true
 					}
-					n.dynamic = true
+					// method of a module interface: dynamic, unless the interface method carries a contract with a frame
+					n.ifaceCalls = append(n.ifaceCalls, c)
 					return true
 				}
 				if inModule(c.Pkg()) {
 					n.callees = append(n.callees, c.Origin())
+					// function values passed to a module callee (resolves calls of func-typed parameters there)
+					for i, a := range x.Args {
+						at := info.TypeOf(a)
+						if at == nil {
+							continue
+						}
+						if _, isFunc := at.Underlying().(*types.Signature); !isFunc {
+							continue
+						}
+						fa := fnArg{callee: c.Origin(), idx: i}
+						switch av := ast.Unparen(a).(type) {
+						case *ast.FuncLit:
+							fa.lit = av
+						case *ast.Ident:
+							if fo, ok := info.Uses[av].(*types.Func); ok {
+								fa.fn = fo.Origin()
+							}
+						case *ast.SelectorExpr:
+							if fo, ok := info.Uses[av.Sel].(*types.Func); ok {
+								fa.fn = fo.Origin()
+							}
+						}
+						f.fnArgs = append(f.fnArgs, fa)
+					}
 				} else {
-					if isLeafExternal(c) {
+					switch {
+					case callbackFuncs[c.FullName()]:
+						// library function that calls exactly the function values it is given: literals are already
+						// child nodes of n; named functions become static edges; anything else is a dynamic call
 						n.leafExt = true
-					} else {
+						for _, a := range x.Args {
+							at := info.TypeOf(a)
+							if at == nil {
+								continue
+							}
+							if _, isFunc := at.Underlying().(*types.Signature); !isFunc {
+								continue
+							}
+							switch av := ast.Unparen(a).(type) {
+							case *ast.FuncLit:
+							case *ast.Ident:
+								if fo, ok := info.Uses[av].(*types.Func); ok && inModule(fo.Pkg()) {
+									n.callees = append(n.callees, fo.Origin())
+								} else {
+									n.dynamic = true
+								}
+							case *ast.SelectorExpr:
+								if fo, ok := info.Uses[av.Sel].(*types.Func); ok && inModule(fo.Pkg()) {
+									n.callees = append(n.callees, fo.Origin())
+								} else {
+									n.dynamic = true
+								}
+							default:
+								n.dynamic = true
+							}
+						}
+					case isLeafExternal(c):
+						n.leafExt = true
+					default:
 						n.external = true
 					}
 					// pointers to module structs handed to external code may be filled by reflection
@@ -392,7 +507,21 @@ func (f *Frame) scanBody(pk *packages.Package, n *fnode, body ast.Node, valueTak
 				}
 			default:
 				if n != nil {
-					n.dynamic = true
+					// call of a function value: reachable targets are the escaping functions of that signature
+					if _, isLit := ast.Unparen(x.Fun).(*ast.FuncLit); isLit {
+						// immediately-invoked / go / defer literal: it is a child node of n already
+					} else if id, isID := ast.Unparen(x.Fun).(*ast.Ident); isID && n.params != nil && hasParam(n.params, info.Uses[id]) {
+						n.paramCalls = append(n.paramCalls, n.params[info.Uses[id]]) // resolved from the call sites of n
+						if sig, ok := info.TypeOf(x.Fun).Underlying().(*types.Signature); ok {
+							n.paramCallSigs = append(n.paramCallSigs, sigKey(sig))
+						}
+					} else if id, isID := ast.Unparen(x.Fun).(*ast.Ident); isID && extLocals[info.Uses[id]] {
+						n.leafExt = true // a function value produced by library code (context cancel functions, ...)
+					} else if sig, ok := info.TypeOf(x.Fun).Underlying().(*types.Signature); ok {
+						n.dynSigs = append(n.dynSigs, sigKey(sig))
+					} else {
+						n.dynamic = true
+					}
 				}
 			}
 		case *ast.AssignStmt:
@@ -405,6 +534,14 @@ func (f *Frame) scanBody(pk *packages.Package, n *fnode, body ast.Node, valueTak
 			// a function literal is its own node: it may escape and be called by anyone (it is in E),
 			// and the enclosing function may call it (edge), but the enclosing function does not become escaping
 			child := &fnode{writes: newWset(), isLit: true}
+			if ls, ok := info.TypeOf(x).(*types.Signature); ok {
+				child.sig = sigKey(ls)
+				child.params = paramIndex(ls)
+			}
+			if f.litByAST == nil {
+				f.litByAST = map[*ast.FuncLit]*fnode{}
+			}
+			f.litByAST[x] = child
 			if n != nil {
 				child.fn = n.fn
 				n.lits = append(n.lits, child)
@@ -442,20 +579,27 @@ func (f *Frame) scanBody(pk *packages.Package, n *fnode, body ast.Node, valueTak
 		return true
 	})
 	// function values taken (identifier/selector denoting a func, not in call position)
+	calledIdents := map[*ast.Ident]bool{}
 	ast.Inspect(body, func(m ast.Node) bool {
+		if _, isLit := m.(*ast.FuncLit); isLit {
+			return false // a nested literal is scanned as its own node
+		}
 		e, ok := m.(ast.Expr)
 		if !ok {
 			return true
 		}
 		if callFuns[e] {
-			// still descend: receiver expression may contain values
+			// still descend: receiver expression may contain values; the method/function name itself is in call position
 			if sel, ok := e.(*ast.SelectorExpr); ok {
-				_ = sel
+				calledIdents[sel.Sel] = true
 			}
 			return true
 		}
 		switch x := e.(type) {
 		case *ast.Ident:
+			if calledIdents[x] {
+				return true
+			}
 			if fn, ok := info.Uses[x].(*types.Func); ok && inModule(fn.Pkg()) {
 				valueTaken[fn.Origin()] = true
 			}
@@ -509,29 +653,61 @@ func (f *Frame) writesOf(n *fnode) *wset {
 		c := stack[len(stack)-1]
 		stack = stack[:len(stack)-1]
 		w.add(c.writes)
+		pkgOf := ""
+		if c.fn != nil && c.fn.Pkg() != nil {
+			pkgOf = c.fn.Pkg().Path()
+		}
 		if c.dynamic || c.external {
 			usesE = true
 		}
 		if c.leafExt {
 			usesLight = true
 		}
-		for name := range c.extIface {
-			if f.heavyNames[name] {
+		for _, ic := range c.ifaceCalls {
+			if ws, ok := f.frameOf(ic, pkgOf); ok {
+				w.add(ws)
+				if ws.all {
+					usesE = true
+				}
+			} else {
+				usesE = true
+			}
+		}
+		for _, ef := range c.extIfaceFns {
+			if ws, ok := f.frameOf(ef, pkgOf); ok {
+				w.add(ws)
+				if ws.all {
+					usesE = true
+				}
+			} else if f.heavyNames[ef.Name()] {
 				usesE = true
 			} else {
 				usesLight = true
 			}
 		}
 		for _, cal := range c.callees {
+			if ws, ok := f.frameOf(cal, pkgOf); ok {
+				w.add(ws) // callee under a contract with a frame: its assigns clause, not its body
+				if ws.all {
+					usesE = true
+				}
+				continue
+			}
 			if cn := f.nodes[cal]; cn != nil && !seen[cn] {
 				seen[cn] = true
 				stack = append(stack, cn)
 			}
 		}
-		for _, l := range c.lits {
+		for _, l := range append(append([]*fnode{}, c.lits...), c.dynTargets...) {
 			if !seen[l] {
 				seen[l] = true
 				stack = append(stack, l)
+			}
+		}
+		for _, ws := range c.frames {
+			w.add(ws)
+			if ws.all {
+				usesE = true
 			}
 		}
 	}
@@ -553,7 +729,9 @@ var leafPkgPrefixes = []string{
 	"fmt", "sync", "regexp", "slices", "maps", "sort", "net/url", "mime", "compress/", "log", "bufio", "reflect", "runtime",
 	"net/http", "net/textproto", "html", "text/", "container/", "context", "unsafe", "iter", "cmp", "net/netip", "net",
 	"golang.org/x/crypto/", "golang.org/x/text/", "golang.org/x/term", "github.com/google/uuid", "github.com/golang-jwt/jwt",
-	"github.com/tucats/ego/internal/cli/ui", "database/sql", "github.com/mattn/go-sqlite3", "github.com/lib/pq", "modernc.org/sqlite",
+	"gopkg.in/resty.v1", "github.com/araddon/dateparse", "github.com/go-webauthn/webauthn", "github.com/shirou/gopsutil", "github.com/chzyer/readline",
+	"github.com/gomarkdown/markdown", "github.com/brandenc40/romannumeral", "github.com/DmitriyVTitov/size", "github.com/stretchr/testify", "golang.org/x/",
+	"github.com/tucats/subs", "github.com/tucats/jaxon", "github.com/tucats/termgen", "github.com/tucats/validator", "database/sql", "github.com/mattn/go-sqlite3", "github.com/lib/pq", "modernc.org/sqlite",
 }
 
 var nonLeafFuncs = map[string]bool{
@@ -561,10 +739,16 @@ var nonLeafFuncs = map[string]bool{
 	"(*net/http.Server).ListenAndServe": true, "(*net/http.Server).ListenAndServeTLS": true, "(*net/http.Server).Serve": true, "(*net/http.Server).ServeTLS": true,
 	"(*net/http.ServeMux).ServeHTTP": true, "(net/http.HandlerFunc).ServeHTTP": true, "(net/http.Handler).ServeHTTP": true,
 	"(*net/http.Client).Do": true, "(*net/http.Client).Get": true, "(*net/http.Client).Post": true, "net/http.Get": true, "net/http.Post": true,
-	"sort.Slice": true, "sort.SliceStable": true, "sort.Sort": true, "sort.Stable": true, "slices.SortFunc": true, "slices.SortStableFunc": true,
-	"(*sync.Once).Do": true, "time.AfterFunc": true, "path/filepath.Walk": true, "path/filepath.WalkDir": true, "io/fs.WalkDir": true,
-	"strings.Map": true, "strings.FieldsFunc": true, "strings.IndexFunc": true, "strings.TrimFunc": true, "bytes.Map": true,
+	"sort.Sort": true, "sort.Stable": true, "time.AfterFunc": true,
+}
+
+// callbackFuncs: library functions that synchronously call exactly the function values passed to them.
+var callbackFuncs = map[string]bool{
+	"sort.Slice": true, "sort.SliceStable": true, "slices.SortFunc": true, "slices.SortStableFunc": true,
+	"(*sync.Once).Do": true, "path/filepath.Walk": true, "path/filepath.WalkDir": true, "io/fs.WalkDir": true,
+	"strings.Map": true, "strings.FieldsFunc": true, "strings.IndexFunc": true, "strings.TrimFunc": true, "strings.TrimLeftFunc": true, "strings.TrimRightFunc": true, "bytes.Map": true,
 	"(*regexp.Regexp).ReplaceAllStringFunc": true, "(*regexp.Regexp).ReplaceAllFunc": true, "slices.IndexFunc": true, "slices.ContainsFunc": true, "slices.DeleteFunc": true,
+	"sync.OnceFunc": true, "sync.OnceValue": true,
 }
 
 func isLeafExternal(fn *types.Func) bool {
@@ -645,14 +829,16 @@ func (f *Frame) WriteKind(fc *FnCtx, fn *types.Func, k any) int {
 	case fn == nil:
 		w = f.wE // dynamic: any escaping function
 	case fn.Type().(*types.Signature).Recv() != nil && isInterface(fn.Type().(*types.Signature).Recv().Type()):
-		if !inModule(fn.Pkg()) && !f.heavyNames[fn.Name()] {
-			w = f.wLight // method of a library interface: a library type, or a light module method of that name
-			fc.assumptions[f.lightAssumption()] = true
-		} else {
-			w = f.wE // module interface / heavy method: any implementation, all of which are in E
+		// interface method: exactly the module methods of that name on types implementing the interface
+		// (library implementations do not touch module state)
+		w = newWset()
+		for _, impl := range f.implementers(fn) {
+			w.add(f.writesOf(impl))
 		}
 	case !inModule(fn.Pkg()):
-		if isLeafExternal(fn) {
+		if callbackFuncs[fn.FullName()] {
+			w = f.wE // runs the function values it is given; their effects are not tracked at the call site
+		} else if isLeafExternal(fn) {
 			w = f.wLight
 			fc.assumptions[f.lightAssumption()] = true
 		} else {
